@@ -325,12 +325,21 @@ bool FileManager::readStream(std::istream &_istream, MeshT &_mesh,
         }
     }
 
-    while(!_istream.eof()) {
+    while(_istream.good()) {
         // "End of file reached while searching for input!"
         // is thrown here. \TODO Fix it!
 
         // Read property
         readProperty(_istream, _mesh);
+    }
+
+    if(!_istream.eof()) {
+        // A property value could not be parsed; the stream is in a fail state
+        // and would never reach the end of the file.
+        if (verbosity_level_ >= 1) {
+            std::cerr << "OVM File loading error: could not parse property section." << std::endl;
+        }
+        return false;
     }
 
     if(_computeBottomUpIncidences) {
